@@ -7,6 +7,7 @@ import (
 	"sync/atomic"
 
 	"github.com/cilium/statedb/index"
+	"github.com/cilium/statedb/internal/simhook"
 )
 
 type deleteTracker[Obj any] struct {
@@ -46,6 +47,7 @@ func (dt *deleteTracker[Obj]) deleted(txn ReadTxn, minRevision Revision) *iterat
 func (dt *deleteTracker[Obj]) mark(upTo Revision) {
 	// Store the new low watermark and trigger a round of garbage collection.
 	dt.revision.Store(upTo)
+	simhook.Yield("dt.marked")
 	select {
 	case dt.db.gcTrigger <- struct{}{}:
 	default:
